@@ -97,6 +97,7 @@ contract(F, "Fiber.getPayload",
              "noalloc": dict(requires=[LEGAL_START, "not allocate"], ensures=[
                  "forall(lambda k: implies(self.coords[k] == coord, (not isnone(result)) and val(result) is self.payloads[k]), 0, len(self.coords))",
                  "implies(forall(lambda k: self.coords[k] != coord, 0, len(self.coords)) and isnone(default), isnone(result))",
+                 "implies(isnone(default) and not isnone(result), exists(lambda k: 0 <= k and k < len(self.coords) and self.coords[k] == coord and val(result) is self.payloads[k], witness=[final(index)]))",
                  "implies(forall(lambda k: self.coords[k] != coord, 0, len(self.coords)) and not isnone(default), (not isnone(result)) and fresh(val(result)) and val(result).value == val(default))",
                  "implies(not isnone(start_pos), " + " and ".join("(%s)" % x for x in SAVED_POS) + ")"]),
          },
@@ -119,7 +120,8 @@ contract(F, "Fiber._create_payload",
          requires=LEAF_WF + ["forall(lambda k: self.coords[k] != coord, 0, len(self.coords))"],
          per_case={"given_pos": dict(requires=[
              "isnone(pos) or (0 <= val(pos) <= len(self.coords) and forall(lambda k: self.coords[k] < coord, 0, val(pos))"
-             " and forall(lambda k: self.coords[k] > coord, val(pos), len(self.coords)))"])},
+             " and forall(lambda k: self.coords[k] > coord, val(pos), len(self.coords)))"],
+             ensures=["implies(not isnone(pos), self.coords[val(pos)] == coord and result is self.payloads[val(pos)])"])},
          modifies=["list:self.coords", "list:self.payloads"],
          ensures={"C01 C03": ["wf(self)", "len(self.coords) == old(len(self.coords)) + 1",
                               "fresh(result)", "typeis(result, 'Payload')", "result.value == self.g_default",
@@ -201,3 +203,7 @@ contract(F, "Fiber.clear", types=dict(self="Fiber"),
 contract(F, "Fiber.isEmpty", verify=False, tier="B", types=dict(self="Fiber"), returns="bool", modifies=[],
          ensures=["result == self.g_empty"],
          note="depth-recursive emptiness abstracted by the ghost field g_empty; agreement with content is checked by C12's bounded part")
+
+contract(F, "Fiber.getShape", verify=False, tier="T",
+         cases=[dict(self="Fiber", all_ranks="bool", authoritative="bool")], returns="opt[int]", modifies=[],
+         note="shape through owner/rank attrs delegation; used by populate only for trace positions")
